@@ -127,6 +127,13 @@ func init() {
 			slow := []cliEv{{K: "start", I: 0}, {K: "start", I: 1}, {K: "resp", I: 0}, {K: "resp", I: 1}, {K: "unknown"}, {K: "tick", Arg: 0}, {K: "tick", Arg: 1}}
 			cliHistories(c, "C12", cliOpts{Fallback: true, RTO: int64(2 * time.Minute)}, slow, depth, eps, "Hslow")
 			cliHistories(c, "C12", cliOpts{Fallback: true, RTO: int64(100 * 365 * 24 * time.Hour), NoRetransmit: true}, slow, depth-1, eps, "Hcenturies")
+			// the connection outlives the client (WithNoConnClose): after Close a successor client on the same connection
+			// gets every datagram from then on (checked after every history that closed)
+			cliHistories(c, "C12", cliOpts{Fallback: true, NoConnClose: true}, []cliEv{{K: "start", I: 0}, {K: "resp", I: 0}, {K: "unknown"}, {K: "tick", Arg: 1}, {K: "close"}}, depth-1, []string{"close"}, "Hsuccessor")
+			// responses that carry a FINGERPRINT (right, wrong), alone and with bytes behind the message
+			fps := []cliEv{{K: "start", I: 0}, {K: "resp", I: 0, Arg: 6}, {K: "resp", I: 0, Arg: 7}, {K: "resp", I: 0, Arg: 8}, {K: "unknown", Arg: 7}, {K: "tick", Arg: 1}}
+			cliHistories(c, "C12", cliOpts{Fallback: true}, fps, depth, eps, "Hfingerprint")
+			cliHistories(c, "C12", cliOpts{}, fps, depth-1, eps, "Hfingerprint-nofb")
 			small := []cliEv{{K: "start", I: 0}, {K: "start", I: 1}, {K: "resp", I: 0}, {K: "resp", I: 1, Arg: 2}, {K: "unknown"}, {K: "tick", Arg: 1}, {K: "failagent"}, {K: "failwrite"}, {K: "failwrite", Arg: 1}}
 			cliHistoriesFrom(c, "C12", cliOpts{Fallback: true, PoolFanout: true}, []cliEv{{K: "start", I: 0}, {K: "resp", I: 0}}, small, depth, eps, "Hafter")
 			ev := func(k string, i int) cliEv { return cliEv{K: k, I: i} }
